@@ -79,6 +79,18 @@ pub fn execute(ctx: &mut Ctx, lines: &[String]) -> Vec<String> {
                 }
                 hex(&data)
             }
+            ["BUFLOG", max, lens] => {
+                ctx.report.count("op.BUFLOG");
+                ctx.report.nontrivial_case(lines);
+                // (reproduce once with a doubled bound before calling it a hang)
+                match crate::props::robust::run_buflog(max, lens, 5).or_else(|| crate::props::robust::run_buflog(max, lens, 10)) {
+                    Some(held) => held,
+                    None => {
+                        ctx.report.fail(&case_id, "buffer-log-hangs", &format!("line {li}: logging records of lengths {lens} to a memory buffer of {max} bytes did not end within 10 s (twice)"));
+                        "hang".into()
+                    }
+                }
+            }
             _ => format!("bad-op {line}"),
         };
         out.push(ans);
